@@ -1,10 +1,140 @@
 import Driver.Util
-open Lean Driver
+import Driver.Img
+import Driver.C13
+import GinjaxVerif.Model.C14
+open Lean Driver GinjaxVerif GinjaxVerif.ND GinjaxVerif.C13 GinjaxVerif.C14
 
+/-!
+Driver ops `c14.*`: the per-image operations of `MultiImage` and `jax.vmap` on integer arrays.
+Wire format as in `Driver/C13.lean` (array `{"shape","data"}`, multi image
+`{"D","is_torus","data":[{"k","p","block"}…]}`).  A per-image function is
+`{"kind": "tge", "d":…, "M":[[…]], "p":…}` | `{"kind":"pool_sum","d":…,"patch":…}` |
+`{"kind":"norm_sq","d":…}` | `{"kind":"marker","mul":…,"add":…}` (identity with a marker:
+`v ↦ mul * v + add + (sum of the image)`, a function that mixes everything INSIDE one image).
+A component is `{"idx": i}` or `{"slice": [lo, hi]}`.
+-/
 namespace Driver.C14
+open Driver.C13 (asNDArr jNDArr asMI jMI jGImg guard)
 
-def handle (op : String) (_j : Json) : R Json := do
+/-- a per-image function the driver can evaluate, with its abstract output shape and the
+condition under which the library accepts the image -/
+structure PerImage where
+  f : NDArr Int → NDArr Int
+  outShape : List Nat → List Nat
+  ok : List Nat → Bool
+
+def markerFn (mul add : Int) (y : NDArr Int) : NDArr Int :=
+  let s := y.data.foldl (· + ·) 0
+  ⟨y.shape, y.data.map fun v => mul * v + add + s⟩
+
+def parsePerImage (j : Json) : R PerImage := do
+  let kind ← strF j "kind"
+  match kind with
+  | "tge" =>
+    let d ← natF j "d"
+    let M ← field j "M" >>= parseMat d
+    if !isSignedPerm M then throw "not a signed permutation matrix"
+    let p ← natF j "p"
+    pure ⟨tgeArr d M p, tgeOutShape M,
+      fun rest => decide (d ≤ rest.length) && (rest.drop d).all (· == d)⟩
+  | "pool_sum" =>
+    let d ← natF j "d"
+    let patch ← natF j "patch"
+    pure ⟨poolArr d patch (1 : Int), poolOutShape d patch, poolOk d patch⟩
+  | "norm_sq" =>
+    let d ← natF j "d"
+    pure ⟨normBlock d sumSq, fun rest => rest.take d,
+      fun rest => decide (d ≤ rest.length) && (rest.take d).prod != 0⟩
+  | "marker" =>
+    let mul ← intF j "mul"
+    let add ← intF j "add"
+    pure ⟨markerFn mul add, id, fun _ => true⟩
+  | _ => throw s!"unknown per-image function {kind}"
+
+def asComp (j : Json) : R Comp := do
+  match optField j "idx" with
+  | some v => pure (.idx (← asNat v))
+  | none =>
+    match ← listF asNat j "slice" with
+    | [lo, hi] => pure (.slice lo hi)
+    | _ => throw "component must be {idx} or {slice:[lo,hi]}"
+
+def ratStat (l : List Rat) : Rat × Rat :=
+  let n : Rat := (l.length : Nat)
+  let mu := l.foldl (· + ·) 0 / n
+  (mu, l.foldl (fun acc v => acc + (v - mu) * (v - mu)) 0 / n)
+
+def jRatArr (a : NDArr Rat) : Json :=
+  Json.mkObj [("shape", jList jNat a.shape), ("data", Json.arr (a.data.map jRat))]
+
+def handle (op : String) (j : Json) : R Json := do
   match op with
+  | "c14.one" =>
+    -- the per-image function on one image
+    let x ← field j "x" >>= asNDArr
+    let pf ← field j "f" >>= parsePerImage
+    guard (pf.ok x.shape) "per-image function"
+    pure (jNDArr (pf.f x))
+  | "c14.vmap" =>
+    let x ← field j "x" >>= asNDArr
+    let pf ← field j "f" >>= parsePerImage
+    guard (decide (x.shape.length ≥ 1) && pf.ok x.shape.tail) "vmap"
+    pure (jNDArr (vmap0 pf.outShape pf.f x))
+  | "c14.map_leading" =>
+    let x ← field j "x" >>= asNDArr
+    let n ← natF j "n_lead"
+    let pf ← field j "f" >>= parsePerImage
+    let rest := x.shape.drop n
+    guard (decide (n ≤ x.shape.length) && pf.ok rest && mapLeadingOk n rest pf.outShape x)
+      "map_leading"
+    pure (jNDArr (mapLeading n rest pf.outShape pf.f x))
+  | "c14.tge" =>
+    let m ← field j "mi" >>= asMI
+    let d ← natF j "d"
+    let M ← field j "M" >>= parseMat d
+    if !isSignedPerm M then throw "not a signed permutation matrix"
+    guard (miTgeOk M m) "times_group_element"
+    pure (jMI (miTge M m))
+  | "c14.average_pool" =>
+    let m ← field j "mi" >>= asMI
+    let patch ← natF j "patch"
+    guard (miAveragePoolOk patch m) "average_pool"
+    pure (jMI (miAveragePool patch (1 : Int) m))
+  | "c14.norm" =>
+    let m ← field j "mi" >>= asMI
+    guard (miNormOk sumSq m) "norm"
+    pure (jMI (miNorm sumSq m))
+  | "c14.get_component" =>
+    let m ← field j "mi" >>= asMI
+    let c ← field j "component" >>= asComp
+    let t ← natF j "future_steps"
+    guard (getComponentOk m c t) "get_component"
+    pure (jMI (getComponent m c t))
+  | "c14.batch_get_component" =>
+    let m ← field j "mi" >>= asMI
+    let c ← field j "component" >>= asComp
+    let t ← natF j "future_steps"
+    guard (batchGetComponentOk m c t) "batch_get_component"
+    pure (jMI (batchGetComponent m c t))
+  | "c14.batch_get_component_legacy" =>
+    let m ← field j "mi" >>= asMI
+    let c ← field j "component" >>= asComp
+    let t ← natF j "future_steps"
+    guard (batchGetComponentOk { m with data := sortKeys m.data } c t) "batch_get_component"
+    pure (jMI (batchGetComponentLegacy m c t))
+  | "c14.to_images" =>
+    let m ← field j "mi" >>= asMI
+    pure (jList jGImg m.toImages)
+  | "c14.group_stats" =>
+    -- one sample (channels, spatial): centred values and the (biased) variance of the own group
+    let x ← field j "x" >>= asNDArr
+    let groups ← natF j "groups"
+    let c := x.shape.headD 0
+    guard (groups != 0 && c % groups == 0 && x.shape.prod != 0) "group_norm"
+    let xr : NDArr Rat := NDArr.map (fun (v : Int) => (v : Rat)) x
+    let centred := groupNormSample groups ratStat (fun v s => v - s.1) xr
+    let var := groupNormSample groups ratStat (fun _ s => s.2) xr
+    pure (Json.mkObj [("centred", jRatArr centred), ("var", jRatArr var)])
   | _ => throw s!"unknown op {op}"
 
 end Driver.C14
